@@ -2,8 +2,8 @@
    Property theorems only; each is closed by a lemma from C04/Proofs*.v. *)
 From Coq Require Import ZArith List Bool Lia.
 Import ListNotations.
-From Coq Require Import QArith.
-From Osmo Require Import Base.DecModel C04.Common C04.Lp C04.MathLib C04.Balancer C04.Stableswap C04.ProofsLp C04.ProofsPools C04.ProofsBalancer C04.ProofsStable Gen.C04_consts.
+From Coq Require Import QArith Reals.
+From Osmo Require Import Base.DecModel C04.Common C04.Lp C04.MathLib C04.Balancer C04.Stableswap C04.ProofsLp C04.ProofsPools C04.ProofsBalancer C04.ProofsBalancerReal C04.ProofsStable Gen.C04_consts.
 Open Scope Z_scope.
 
 (* ------------------------------------------------------------------------------------------
@@ -120,6 +120,57 @@ Theorem C04_balancer_single_exit_is_truncated_formula : forall p i amt fee ef s 
     P18 - ef <> 0 /\ s = Z.quot (d_quo r (P18 - ef)) P18 /\ 0 < s /\ b_shares p' = b_shares p - s /\ 0 <= b_shares p'.
 Proof. exact b_exit_swap_out_rounded_image. Qed.
 Print Assumptions C04_balancer_single_exit_is_truncated_formula.
+
+(* the integer core of an exact-in swap: token out = floor( Bout * (1 - Pow(y, wr)) ) exactly, for the 18-decimal operands
+   y = Bin / (Bin + in (1 - fee)), wr = wIn / wOut the code computes *)
+Theorem C04_balancer_swap_out_floor : forall p i j a fee out,
+  b_calc_out_given_in p i j a fee = Ok out ->
+  exists y wr pw,
+    y = d_quo (dec_of_int (nthZ (b_res p) i)) (d_mul (dec_of_int a) (P18 - fee) + dec_of_int (nthZ (b_res p) i)) /\
+    wr = d_quo (dec_of_int (nthZ (b_w p) i)) (dec_of_int (nthZ (b_w p) j)) /\
+    pow y wr = Ok pw /\
+    0 < out /\ out * P18 <= (P18 - pw) * nthZ (b_res p) j < (out + 1) * P18.
+Proof. exact b_calc_out_floor. Qed.
+Print Assumptions C04_balancer_swap_out_floor.
+
+(* value function, real analysis only: paying out at most Bout (1 - y^(wi/wj) (1 - e)) lowers Bin^wi Bout^wj by at most (1 - e)^wj *)
+Theorem C04_value_monotone_abstract : forall Bi Bj a' out wi wj eps : R,
+  (0 < Bi -> 0 < Bj -> 0 <= a' -> 0 < wi -> 0 < wj -> 0 <= eps < 1 ->
+  out <= Bj * (1 - Rpower (Bi / (Bi + a')) (wi / wj) * (1 - eps)) ->
+  Rpower Bi wi * Rpower Bj wj * Rpower (1 - eps) wj <= Rpower (Bi + a') wi * Rpower (Bj - out) wj)%R.
+Proof. exact value_monotone_abstract. Qed.
+Print Assumptions C04_value_monotone_abstract.
+
+(* PARTIAL (value function of the weighted pool under an exact-in swap).  Hypotheses, all explicit:
+   - [pow_accurate]: on the base range [1/2, 1] the computed power is not below the true power of its 18-decimal operands by
+     more than eps (the documented precision; C13's finding F4 shows it fails for smaller bases - and this tree lets them occur);
+   - the Pow base of THIS swap lies in [1/2, 1];
+   - the 18-decimal rounding of the two operands costs at most the factor (1 - eta) on the power.
+   Conclusion: Bin^wi * Bout^wj (all other reserves and the share total are untouched) falls by at most the factor
+   (1 - e')^wj with the explicit e' = eta + eps / y^(wi/wj).  What is missing for the full statement: a proof of [pow_accurate]
+   (C13's territory), a bound on eta (it is about (wr + 1) * 10^-18 / y), and the same argument for exact-out swaps and
+   single-asset joins / exits (same structure; only the integer cores above are proved for them). *)
+Theorem C04_balancer_swap_value_partial : forall eps : R,
+  (forall b e r : Z, (P18 / 2 <= b <= P18)%Z -> (0 <= e)%Z -> pow b e = Ok r ->
+     Rpower (IZR b / D18) (IZR e / D18) - eps <= IZR r / D18)%R ->
+  forall (p : bpool) (i j : nat) (a fee out : Z) (eta : R),
+  b_calc_out_given_in p i j a fee = Ok out ->
+  let Bi := IZR (nthZ (b_res p) i) in
+  let Bj := IZR (nthZ (b_res p) j) in
+  let wi := IZR (nthZ (b_w p) i) in
+  let wj := IZR (nthZ (b_w p) j) in
+  let a' := (IZR a * (1 - IZR fee / D18))%R in
+  let yd := d_quo (dec_of_int (nthZ (b_res p) i)) (d_mul (dec_of_int a) (P18 - fee) + dec_of_int (nthZ (b_res p) i)) in
+  let wrd := d_quo (dec_of_int (nthZ (b_w p) i)) (dec_of_int (nthZ (b_w p) j)) in
+  let pt := Rpower (Bi / (Bi + a')) (wi / wj) in
+  (0 < Bi)%R -> (0 < Bj)%R -> (0 <= IZR a)%R -> (0 < wi)%R -> (0 < wj)%R -> (0 <= IZR fee / D18 <= 1)%R ->
+  (P18 / 2 <= yd <= P18)%Z -> (0 <= wrd)%Z ->
+  (pt * (1 - eta) <= Rpower (IZR yd / D18) (IZR wrd / D18))%R ->
+  (0 <= eta + eps / pt < 1)%R ->
+  (Rpower Bi wi * Rpower Bj wj * Rpower (1 - (eta + eps / pt)) wj <= Rpower (Bi + IZR a) wi * Rpower (Bj - IZR out) wj)%R.
+Proof. exact swap_out_value_partial. Qed.
+Print Assumptions C04_balancer_swap_value_partial.
+
 
 (* The full statement for balancer pools - "within the documented power precision for every trade size up to the solver's
    domain limit" - is FALSE of the faithful model, because this tree has no MaxInRatio / MaxOutRatio guard and Pow is used
@@ -245,6 +296,31 @@ Proof.
   apply Qle_not_lt in Hle. apply Hle. exact Hlt.
 Qed.
 Print Assumptions C04_stable_full_refuted.
+
+(* ------------------------------------------------------------------------------------------
+   Sequences
+   ------------------------------------------------------------------------------------------ *)
+(* no_profit_sequence for sequences of ANY length made of no-swap joins and exits (and their Calc variants; failed calls are
+   rolled back): the reserve of every token per outstanding share never falls, so nobody can be diluted by such a sequence *)
+Theorem C04_no_profit_sequence_proportional : forall fee ef ops p,
+  wf_b p -> Forall prop_op_valid ops -> 0 <= ef <= P18 ->
+  wf_b (b_run fee ef p ops) /\ no_dilution p (b_run fee ef p ops).
+Proof. intros; apply no_profit_sequence_proportional; assumption. Qed.
+Print Assumptions C04_no_profit_sequence_proportional.
+
+(* the round trip join -> exit of the minted shares returns at most what was joined, token by token *)
+Theorem C04_no_profit_join_exit : forall p amts ns p' ef coins p'',
+  wf_b p -> Forall (fun a => 0 <= a) amts -> 0 <= ef <= P18 ->
+  b_join_no_swap p amts = Ok (ns, p') -> b_exit p' ns ef = Ok (coins, p'') ->
+  Forall2 (fun rr o => o <= snd rr - fst rr) (zip (b_res p) (b_res p')) coins.
+Proof. exact no_profit_join_exit. Qed.
+Print Assumptions C04_no_profit_join_exit.
+
+(* C04_full: the whole property (every operation of both pool kinds, every history) as one statement is NOT proved; what is
+   proved is listed above.  Remaining gaps: (1) sequences that contain swaps or single-asset joins/exits - for balancer they
+   rest on the Pow accuracy hypothesis (C04_balancer_swap_value_partial covers one exact-in swap), for stableswap on the
+   explicit rounding term of C04_stable_swap_k_partial; the oracle checks them on executed round trips instead;
+   (2) the stableswap single-asset join (binary search over share counts): modelled and corresponded, no theorem. *)
 
 (* non-vacuity: an unbalanced 3-asset pool, a join that is not in ratio (two coins leave a remainder),
    an exit with a 1% exit fee *)
